@@ -19,7 +19,7 @@ RULE = ("random binary datasets n in 10..40, 2..3 groups, one feature with 2..5 
         "learner = ExactLearner (exact weighted 0/1 minimiser over all labellings of the feature cells, or over 1-D thresholds in "
         "both directions + constants; in a fifth of the cases wrapped in a scikit-learn Pipeline with sample_weight_name='clf__sample_weight') "
         "so the hypothesis class H is enumerable; 5 parity moments x 9 bound specs; eps in "
-        "{0.01..0.25} (in a quarter of the cases the estimator was fitted on other data of the same size before), max_iter in {1,3,6,10,25,50}, nu in {1e-6..0.05}, eta0 in {0.5,2,8}, LP step on/off; a quarter of the fits use objective=ErrorRate(costs) with costs in [0,1] incl. a zero cost. Oracle: (cost-weighted) err/gamma "
+        "{0.01..0.25} (in a quarter of the cases the estimator was fitted on other data of the same size before), max_iter in {1,3,6,10,25,50}, nu in {0, 1e-12, 1e-9, 1e-6..0.05}, eta0 in {0.5,2,8}, LP step on/off; a quarter of the fits use objective=ErrorRate(costs) with costs in [0,1] incl. a zero cost. Oracle: (cost-weighted) err/gamma "
         "tables over H from refs/moments.py; Q = weights_ over predictors_[t].predict(X); true duality gap of (Q, lambda-hat) for "
         "lambda-hat in {mean of lambda_vecs_EG_[:, :best_iter_+1], lambda_vecs_LP_[best_iter_]} (minimum over the candidates) "
         "must be <= best_gap_; independent LP (HiGHS) for the constrained optimum: err(Q) <= OPT + 2g and every constraint "
@@ -45,7 +45,7 @@ def run_case(cls, key, seed, ctx):
     hclass = gen.pick(rng, ["cells", "thresholds"])
     eps = float(gen.pick(rng, [0.01, 0.02, 0.05, 0.1, 0.25]))
     max_iter = int(gen.pick(rng, [1, 3, 6, 10, 25, 50]))
-    nu = float(gen.pick(rng, [1e-6, 1e-4, 1e-3, 0.01, 0.05]))
+    nu = float(gen.pick(rng, [1e-6, 1e-4, 1e-3, 0.01, 0.05, 0.0, 1e-9, 1e-12]))
     eta0 = float(gen.pick(rng, [0.5, 2.0, 8.0]))
     lp = bool(rng.random() < 0.6)
     composite = bool(rng.random() < 0.2)
